@@ -6,8 +6,8 @@
    Per tree: the compact layout; every trivia of the menus at every used token
    boundary, one boundary at a time; every quoting form of every argument, one
    argument at a time; every trailing trivia; NLay layouts with all choices drawn
-   at random (TLC -seed).  In the quick tier only every fourth small tree gets the
-   one-at-a-time layouts; the choice trees (members in every order) get the compact
+   at random (TLC -seed).  Only every fourth small tree (every second one in the thorough
+   tier) gets the one-at-a-time layouts; the choice trees (members in every order) get the compact
    and the random layouts.  Trees: family f holds the trees with index = f modulo
    NFam of the exhaustive small set plus NTrees random deeper trees.
 
@@ -67,9 +67,19 @@ PermOf(s, k) == IF s = << >> THEN << >>
 NChoice == 120 + 24
 ChoiceBody(k) == IF k < 120 THEN <<Node(C("choice"), TRUE, C("ch"), PermOf(ChoiceMembers, k))>>
                  ELSE <<Cont(Ids[1], <<Node(C("choice"), TRUE, C("ch"), PermOf(ChoiceMembers2, k - 120)), Terms[1]>>)>>
+\* arguments made of escapes: a slice of the escape runs of YangString (all runs of two, every fourth run of three) as
+\* the source of an argument, in the double-quoted spelling (the argument is the decoded value) next to the single-quoted
+\* one (the argument is the run itself), also on a continuation line and as a piece of a concatenation
+SelectInSeq2(q) == [i \in 1..(Len(q) \div 4) |-> q[4 * i]]
+EscSeq == SetToSeq(EscRuns2) \o SelectInSeq2(SetToSeq(EscRuns3))
+NEsc == Len(EscSeq)
+EscBody(k) == LET r == EscSeq[k]  d == [q |-> "d", src |-> r]  sq == [q |-> "s", src |-> r] IN
+  <<RawNode(C("x:b-c"), <<d>>, << >>), RawNode(C("x:b-c"), <<sq>>, << >>),
+    Cont(Ids[1], <<RawNode(C("description"), <<[q |-> "d", src |-> C("C:") \o r \o <<LF>> \o Spaces(12) \o r], sq, d>>, << >>)>>)>>
 \* which small trees get the full set of layouts (all of them in the thorough tier)
 \* ("shift": trees with fixed source forms get the blank trivia only, which is what moves an occurrence to another column)
-FullSet(i, body) == IF Thorough THEN "full" ELSE IF HasRaw(Module(body)) THEN "shift" ELSE IF i % 4 = 1 THEN "full" ELSE "light"
+FullSet(i, body) == IF HasRaw(Module(body)) THEN (IF Thorough THEN "full" ELSE "shift")
+                    ELSE IF i % (IF Thorough THEN 2 ELSE 4) = 1 THEN "full" ELSE "light"
 
 RE(seq) == seq[RandomElement(1..Len(seq))]
 RECURSIVE RandStmt(_)
@@ -119,6 +129,7 @@ Layouts(f, tid, body, full) ==
 Cases ==
   UNION {Layouts(fam, i, Small[i], FullSet(i, Small[i])) : i \in {i \in 1..Len(Small) : i % NFam = fam % NFam}}
   \cup UNION {Layouts(fam, 500 + k, ChoiceBody(k), "light") : k \in {k \in 0..(NChoice - 1) : k % NFam = fam % NFam}}
+  \cup UNION {Layouts(fam, 2000 + k, EscBody(k), "light") : k \in {k \in 1..NEsc : k % NFam = fam % NFam /\ (Thorough \/ k % 2 = 0)}}
   \cup UNION {Layouts(fam, 1000 * (fam + 1) + j, RandBody(j), "full") : j \in 1..NTrees}
 GInit == fam \in 0..(NFam - 1) /\ done = FALSE
 GNext == /\ ~done /\ done' = TRUE /\ UNCHANGED fam
